@@ -755,8 +755,13 @@ impl Context {
                         }
                     })
                     .try_collect()?;
-                let is_const = fields.iter().all(|(_, is_const)| *is_const);
-                let fields = fields.into_iter().map(|f| f.0).join(",");
+                let mut is_const = fields.iter().all(|(_, is_const)| *is_const);
+                let mut fields = fields.into_iter().map(|f| f.0).collect::<Vec<_>>();
+                if self.keep_unknown_fields.contains(did) {
+                    fields.push("_unknown_fields: ::pilota::LinkedBytes::new()".to_string());
+                    is_const = false;
+                }
+                let fields = fields.join(",");
 
                 let name = self.cur_related_item_path(*did);
 
